@@ -282,6 +282,7 @@ func (w *World) nodeOfThread(t *vsched.Thread) *Node {
 
 func (w *World) crashFromPanic(n *Node) {
 	n.crashedByDev = true
+	w.crashMid = true
 	w.crash(n)
 }
 
